@@ -143,7 +143,7 @@ def modelled_case(rng, kind, with_tf=False):
         t += " " + grp(nm, g)
     if kind in ("distanceZ", "distanceXY", "inertiaZ"):
         t += "   axis %s\n" % vec(axis)
-    iexp = rng.choice([2, 4, 6]); r0 = rng.uniform(2.5, 5.0); en = rng.choice([4, 6]); ed = rng.choice([8, 12]); tol = rng.choice([0.0, 0.0, 0.001, 0.02])
+    iexp = rng.choice([2, 4, 6]); r0 = rng.uniform(2.5, 5.0); en = rng.choice([2, 4, 6, 8]); ed = en + 2 * rng.randint(1, en + 2); tol = rng.choice([0.0, 0.0, 0.001, 0.02])
     extra_def = ""
     if kind == "distanceInv":
         t += "   exponent %d\n" % iexp; extra_def = " exp=%d" % iexp
